@@ -837,30 +837,72 @@ def run_ka(batch: dict, wall_limit: float = 60.0) -> dict:
     return out
 
 # =================================================================================================
+def _run_item(item: dict, wall: float) -> dict:
+    try:
+        sc = item["sc"]
+        kind = sc.get("kind", "history")
+        if kind == "direct":
+            return {"i": item["i"], "trace": run_direct(sc, wall_limit=wall)}
+        if kind == "ka":
+            return {"i": item["i"], "trace": run_ka(sc, wall_limit=wall)}
+        return {"i": item["i"], "trace": run_history(sc, wall_limit=wall)}
+    except Exception as e:  # noqa: BLE001
+        import traceback
+        return {"i": item["i"], "harness_error": f"{type(e).__name__}: {e}", "tb": traceback.format_exc()[-3000:]}
+
+
 def worker_main() -> None:
+    """One forked child per item: every scenario starts from the same process state (imports done, nothing run),
+    so a replay in a fresh process sees exactly what the batch run saw; a stalled child is killed alone."""
     import logging
+    import signal
+    import warnings
     logging.disable(logging.CRITICAL)
+    warnings.simplefilter("ignore")
     wall = float(sys.argv[1]) if len(sys.argv) > 1 else 30.0
+    import kopf  # noqa: F401  (paid once, before forking)
+    from ..sim import fakeapi, runner, simloop  # noqa: F401
     for line in sys.stdin:
         line = line.strip()
         if not line:
             continue
         item = json.loads(line)
-        sys.stderr.write(f"@@BEGIN {item['i']}\n")
-        sys.stderr.flush()
-        try:
-            sc = item["sc"]
-            kind = sc.get("kind", "history")
-            if kind == "direct":
-                out = {"i": item["i"], "trace": run_direct(sc, wall_limit=wall)}
-            elif kind == "ka":
-                out = {"i": item["i"], "trace": run_ka(sc, wall_limit=wall)}
-            else:
-                out = {"i": item["i"], "trace": run_history(sc, wall_limit=wall)}
-        except Exception as e:  # noqa: BLE001
-            import traceback
-            out = {"i": item["i"], "harness_error": f"{type(e).__name__}: {e}", "tb": traceback.format_exc()[-3000:]}
-        sys.stdout.write(json.dumps(out, default=repr) + "\n")
+        r, w = os.pipe()
+        pid = os.fork()
+        if pid == 0:
+            os.close(r)
+            try:
+                out = _run_item(item, wall)
+                data = json.dumps(out, default=repr).encode()
+            except BaseException as e:  # noqa: BLE001
+                data = json.dumps({"i": item["i"], "harness_error": f"child failed: {type(e).__name__}: {e}"}).encode()
+            with os.fdopen(w, "wb") as f:
+                f.write(data)
+            os._exit(0)
+        os.close(w)
+        chunks = []
+
+        def _alarm(*_a: Any) -> None:
+            try:
+                os.kill(pid, signal.SIGKILL)
+            except ProcessLookupError:
+                pass
+        signal.signal(signal.SIGALRM, _alarm)
+        signal.alarm(int(wall) + 30)
+        with os.fdopen(r, "rb") as f:
+            while True:
+                b = f.read(1 << 16)
+                if not b:
+                    break
+                chunks.append(b)
+        signal.alarm(0)
+        _pid, status = os.waitpid(pid, 0)
+        data = b"".join(chunks)
+        if data:
+            sys.stdout.write(data.decode() + "\n")
+        else:
+            sys.stdout.write(json.dumps({"i": item["i"], "stall": True, "returncode": status,
+                                         "stderr": "child produced no result (stall, crash or timeout)"}) + "\n")
         sys.stdout.flush()
 
 
